@@ -507,6 +507,27 @@ impl Prims {
                 }
                 cx.count("store-level rounds with clear and re-add");
             }
+            if cx.tier != Tier::Miri && cx.rng.chance(1, 3) {
+                // type-ahead with adds in between: each query extends the previous one by a letter while the
+                // store grows (counter buffers sized at one query and used at the next)
+                let t = cx.rng.pick(&recs).1.clone();
+                let tok = st.tok_record(&t);
+                if !tok.words.is_empty() {
+                    let w = word_chars(&tok, cx.rng.below(tok.words.len())).to_vec();
+                    for k in 1..=w.len().min(12) {
+                        let q = s(&w[..k]);
+                        cx.ctx(format!("C19 type-ahead lang={} recs={} q={:?}", lang, recs.len(), q));
+                        let _ = st.search(&q);
+                        cx.eval();
+                        if cx.rng.chance(1, 2) {
+                            let r: Rec = (recs.len() + 7000, format!("{} {}", gen::any_word(&mut cx.rng, lang), gen::rand_word(&mut cx.rng, &alpha, 2, 6)), 1);
+                            st.add(&r);
+                            recs.push(r);
+                        }
+                    }
+                    cx.count("type-ahead sequences with adds in between");
+                }
+            }
             let nq = if cx.tier == Tier::Miri { 3 } else { 8 };
             for k in 0..nq {
                 let t = cx.rng.pick(&recs).1.clone();
@@ -565,7 +586,7 @@ impl Prop for Prims {
             Which::Distance => vec![("exhaustive pairs", 100000, 2000000), ("prefix cells compared", 1000000, 20000000), ("pairs where a discount lowered the distance", 10000, 100000), ("random pairs beyond capacity 20", 500, 5000), ("long pairs with sampled prefix cells", 200, 2000), ("hook matrix growths", 3, 3), ("hook matrix max size", 50, 50)],
             Which::Jaccard => vec![("exhaustive pairs", 100000, 1500000), ("pairs with partial overlap", 20000, 200000), ("pairs beyond the initial capacity of 20", 500, 5000), ("random cases over a wide alphabet", 1000, 10000), ("hook jaccard accesses", 100000, 1000000)],
             Which::Index => vec![("prepare calls", 5000, 50000), ("capped calls", 500, 5000), ("calls with ties at the cut", 100, 1000), ("size 0", 300, 3000), ("corpus prepare calls", 200, 2000), ("stores of 1023-5000 records", 50, 500), ("queries with more than 255 distinct grams", 300, 15000)],
-            Which::Unchecked => vec![("direct distance/similarity calls", 20000, 200000), ("direct calls beyond capacity 20", 5000, 50000), ("store-level searches", 5000, 50000), ("store-level rounds with 127-1500 records", 200, 2000), ("store-level rounds with clear and re-add", 500, 5000), ("direct call sequences with words of 76-420 letters", 200, 2000), ("direct call sequences with arithmetic length relations", 300, 3000), ("store-level queries of 65-200 words", 300, 3000), ("jaccard calls on sets of 256-70000 distinct elements", 20, 200), ("hook matrix accesses", 1000000, 10000000), ("hook matrix growths", 3, 3), ("hook matrix max size", 50, 50), ("hook counter accesses", 10000, 100000), ("hook cost accesses", 100000, 1000000), ("hook jaccard accesses", 10000, 100000)],
+            Which::Unchecked => vec![("direct distance/similarity calls", 20000, 200000), ("direct calls beyond capacity 20", 5000, 50000), ("store-level searches", 5000, 50000), ("store-level rounds with 127-1500 records", 200, 2000), ("store-level rounds with clear and re-add", 500, 5000), ("type-ahead sequences with adds in between", 1000, 10000), ("direct call sequences with words of 76-420 letters", 200, 2000), ("direct call sequences with arithmetic length relations", 300, 3000), ("store-level queries of 65-200 words", 300, 3000), ("jaccard calls on sets of 256-70000 distinct elements", 20, 200), ("hook matrix accesses", 1000000, 10000000), ("hook matrix growths", 3, 3), ("hook matrix max size", 50, 50), ("hook counter accesses", 10000, 100000), ("hook cost accesses", 100000, 1000000), ("hook jaccard accesses", 10000, 100000)],
         }
     }
     #[allow(unused_variables)]
